@@ -185,6 +185,7 @@ Section OvlOk.
   Proof.
     unfold ovl_ensure_has_parent. destruct p as [|x p']; [constructor|].
     apply calls_ok_bind_res; [apply ovl_exists_ok|]. intros ex. destruct ex; [|constructor].
+    apply calls_ok_bind_res; [apply ovl_metadata_ok|]. intros md. destruct (m_type md); [constructor|].
     apply calls_ok_bind_res; [|intros; constructor].
     apply (vp_create_dir_all_ok ok w AT IT). intros; exact I.
   Qed.
